@@ -72,27 +72,34 @@ func (g *G) Step(base xref.NodeSet) *xast.Step {
 	var pickc stepChoice
 	guided := false
 	if base != nil && g.Guide > 0 && g.chance(g.Guide, "guide") {
-		var good []stepChoice
+		// axis first (uniform among the axes that reach something), then a test that matches
+		var goodAxes []string
+		reachOf := map[string][]*xdoc.Node{}
 		for _, ax := range axes {
 			var reach []*xdoc.Node
 			for _, m := range base {
 				reach = append(reach, xref.AxisNodes(ax, m)...)
 			}
-			if len(reach) == 0 {
-				continue
+			if len(reach) > 0 {
+				goodAxes = append(goodAxes, ax)
+				reachOf[ax] = reach
 			}
+		}
+		if len(goodAxes) > 0 {
+			ax := goodAxes[g.intn(len(goodAxes), "goodaxis")]
+			var good []stepChoice
 			for _, t := range g.testsFor(ax) {
-				for _, m := range reach {
+				for _, m := range reachOf[ax] {
 					if g.Env.TestNode(ax, t, m) {
 						good = append(good, stepChoice{ax, t})
 						break
 					}
 				}
 			}
-		}
-		if len(good) > 0 {
-			pickc = good[g.intn(len(good), "goodstep")]
-			guided = true
+			if len(good) > 0 {
+				pickc = good[g.intn(len(good), "goodtest")]
+				guided = true
+			}
 		}
 	}
 	if !guided {
